@@ -537,6 +537,43 @@ func c11Concurrent(c *core.Ctx) {
 		}
 		close(go2)
 		swg.Wait()
+		if len(bad) == 0 {
+			// the same for IsEqual: two structures holding pointers to large records that differ in their last entry,
+			// compared by all goroutines at the same instant - each must be told what it is told in isolation
+			recA, recB := make([]int, 12000), make([]int, 12000)
+			for i := range recA {
+				recA[i], recB[i] = i, i
+			}
+			recB[len(recB)-1] = -1
+			type bigRec struct {
+				Name string
+				Data []int
+			}
+			pa, pb, pa2 := &bigRec{"r", recA}, &bigRec{"r", recB}, &bigRec{"r", append([]int{}, recA...)}
+			ea, eb, ea2 := stackage.And().Push("lead", pa, stormRoot), stackage.And().Push("lead", pb, stormRoot), stackage.And().Push("lead", pa2, stormRoot)
+			wantDiff, wantSame := ea.IsEqual(eb) != nil, ea.IsEqual(ea2) == nil
+			var ewg sync.WaitGroup
+			go3 := make(chan struct{})
+			for w := 0; w < workers; w++ {
+				ewg.Add(1)
+				go func() {
+					defer ewg.Done()
+					<-go3
+					for n := 0; n < 6; n++ {
+						gd, gs := ea.IsEqual(eb) != nil, ea.IsEqual(ea2) == nil
+						if gd != wantDiff || gs != wantSame {
+							mu.Lock()
+							bad = append(bad, fmt.Sprintf("IsEqual on structures holding pointers to 12000-entry records, %d goroutines at once: differing pair reported different=%v (isolated %v), equal pair reported equal=%v (isolated %v)", workers, gd, wantDiff, gs, wantSame))
+							mu.Unlock()
+							return
+						}
+					}
+				}()
+			}
+			close(go3)
+			ewg.Wait()
+			c.Add("queries.concurrent", int64(workers*12))
+		}
 		if c.Verbose {
 			fmt.Printf("deep chain of %d levels, %d goroutines, isolated String() has %d bytes, mismatches reported: %d\n", deep, workers, len(wantStr), len(bad))
 		}
